@@ -160,6 +160,10 @@ func (c *Case) Journal(class string) {
 	w.cpuStart.Store(processCPU())
 }
 
+// Multi reports whether other goroutines of the worker allocate concurrently
+// (always false: workers run their cases on one goroutine).
+func (w *Worker) Multi() bool { return false }
+
 // Class sets the case class without journalling again.
 func (c *Case) Class(class string) { c.class = class }
 
